@@ -285,7 +285,7 @@ func (c *Ctx) Violation(fingerprint, what string, replay any) {
 		return
 	}
 	c.violPrinted++
-	dir := filepath.Join(Root, "replays", c.ID)
+	dir := filepath.Join(Root, "replays", c.ID+os.Getenv("VERIF_WORK_SUFFIX"))
 	os.MkdirAll(dir, 0o755)
 	h := fnv.New32a()
 	h.Write([]byte(fingerprint))
@@ -403,7 +403,11 @@ func (c *Ctx) finish() int {
 	}
 	b, _ := json.MarshalIndent(ev, "", " ")
 	os.MkdirAll(filepath.Join(Root, "evidence"), 0o755)
-	if err := os.WriteFile(filepath.Join(Root, "evidence", c.ID+".json"), append(b, '\n'), 0o644); err != nil {
+	evName := c.ID + ".json"
+	if sfx := os.Getenv("VERIF_WORK_SUFFIX"); sfx != "" {
+		evName = c.ID + sfx + ".json.scratch" // development runs against a scratch repo never overwrite evidence
+	}
+	if err := os.WriteFile(filepath.Join(Root, "evidence", evName), append(b, '\n'), 0o644); err != nil {
 		fmt.Fprintln(os.Stderr, "evidence:", err)
 		return 3
 	}
@@ -510,7 +514,7 @@ func (c *Ctx) Mark(s string) {
 
 // WorkDir returns (and creates) the scratch directory of this check.
 func (c *Ctx) WorkDir() string {
-	d := filepath.Join(Root, ".work", c.ID)
+	d := filepath.Join(Root, ".work", c.ID+os.Getenv("VERIF_WORK_SUFFIX"))
 	os.MkdirAll(d, 0o755)
 	return d
 }
